@@ -14,6 +14,7 @@ import (
 	"net"
 	"os"
 	"regexp"
+	"strings"
 	"sync"
 	"time"
 
@@ -23,6 +24,7 @@ import (
 	"mellium.im/xmpp/jid"
 	"mellium.im/xmpp/websocket"
 
+	"verifharness/c01"
 	"verifharness/common"
 )
 
@@ -43,6 +45,8 @@ type exchange struct {
 type handshake struct {
 	// chunk: the peer's bytes reach the library at most this many per Read (0: whole messages)
 	chunk int
+	// ctx: kind of the context whose Done() fires where the case cancels (see c01.MakeCtx)
+	ctx   byte
 	name  string
 	steps []exchange
 	run   func(ctx context.Context, c net.Conn) (*xmpp.Session, error)
@@ -226,8 +230,8 @@ func play(h handshake, budget, failRd, failWr, cancelAt int) hsResult {
 	d := newDuplex()
 	d.failRd, d.failWr = failRd, failWr
 	d.chunk = h.chunk
-	ctx, cancel := context.WithCancel(context.Background())
-	defer cancel()
+	ctx, cancel, release := c01.MakeCtx(h.ctx)
+	defer release()
 	d.budget = budget
 	var peerWG sync.WaitGroup
 	peerWG.Add(1)
@@ -309,6 +313,7 @@ func play(h handshake, budget, failRd, failWr, cancelAt int) hsResult {
 		}
 	case <-time.After(3 * time.Second):
 		res.outcome = "STALL"
+		c01.NoteStall()
 	}
 	d.end()
 	peerWG.Wait()
@@ -492,11 +497,11 @@ func emitHS(r *common.Run, h handshake, kind string, n int, res hsResult) {
 		r.Fail("panic", "real:"+h.name+":"+kind, lines, "negotiation panicked: "+res.err)
 	case res.outcome == "STALL":
 		r.Fail("stall", "real:"+h.name+":"+kind, lines, "session establishment did not return")
-	case (kind == "clean" || kind == "pclean" || kind == "cleanb") && res.outcome != "done":
+	case isClean(kind) && res.outcome != "done":
 		r.Fail("harness", "real-handshake-not-clean:"+h.name, lines, "the fault-free handshake fails: "+res.err)
-	case kind != "clean" && kind != "pclean" && kind != "cleanb" && res.outcome == "done":
+	case !isClean(kind) && res.outcome == "done":
 		r.Fail("fail-closed", "real:"+h.name+":"+kind, lines, fmt.Sprintf("fault %s %d: session establishment returned a nil error", kind, n))
-	case kind != "clean" && kind != "pclean" && kind != "cleanb" && res.ready:
+	case !isClean(kind) && res.ready:
 		r.Fail("fail-closed", "real-ready-on-error:"+h.name+":"+kind, lines, "session establishment failed ("+res.err+") but the ready bit is set")
 	}
 }
@@ -530,8 +535,8 @@ func playPipe(h handshake, blockWrite, silentAt int) hsResult {
 	c1, c2 := net.Pipe()
 	defer c1.Close()
 	defer c2.Close()
-	ctx, cancel := context.WithCancel(context.Background())
-	defer cancel()
+	ctx, cancel, release := c01.MakeCtx(h.ctx)
+	defer release()
 	peerDone := make(chan struct{})
 	lib := &countConn{Conn: c1}
 	lib.onWrite = func(idx int) {
@@ -621,6 +626,7 @@ func playPipe(h handshake, blockWrite, silentAt int) hsResult {
 		}
 	case <-time.After(3 * time.Second):
 		res.outcome = "STALL"
+		c01.NoteStall()
 	}
 	c1.Close()
 	c2.Close()
@@ -631,8 +637,15 @@ func playPipe(h handshake, blockWrite, silentAt int) hsResult {
 	return res
 }
 
-// playKind runs handshake h under the fault (kind, n).
+func isClean(kind string) bool { return kind == "clean" || kind == "pclean" || kind == "cleanb" }
+
+// playKind runs handshake h under the fault (kind, n); a suffix `.d`, `.p`, `.n` selects the kind
+// of context whose Done() fires (far deadline + cancel, cancelled parent, near deadline).
 func playKind(h handshake, kind string, n int) hsResult {
+	if i := strings.Index(kind, "."); i >= 0 && i+1 < len(kind) {
+		h.ctx = kind[i+1]
+		kind = kind[:i]
+	}
 	switch kind {
 	case "cut":
 		return play(h, n, -1, -1, -1)
@@ -724,7 +737,18 @@ func runReal(r *common.Run) {
 			if h.steps[j].send == "" {
 				continue
 			}
+			if c01.SkipForStalls() {
+				continue
+			}
 			emit("cancel", j, play(h, -1, -1, -1, j))
+			for _, k := range []byte{'d', 'p', 'n'} {
+				if c01.SkipForStalls() {
+					continue
+				}
+				hk := h
+				hk.ctx = k
+				emit("cancel."+string(k), j, play(hk, -1, -1, -1, j))
+			}
 		}
 		// the same handshake over a real net.Pipe: cancellation while blocked in each write
 		// (the peer stops reading) and while blocked in a read before each peer step
@@ -734,14 +758,36 @@ func runReal(r *common.Run) {
 			continue
 		}
 		for k := 0; k < pc.writes; k++ {
+			if c01.SkipForStalls() {
+				continue
+			}
 			emit("pwr", k, playPipe(h, k, -1))
+			for _, ck := range []byte{'d', 'p'} {
+				if c01.SkipForStalls() {
+					continue
+				}
+				hk := h
+				hk.ctx = ck
+				emit("pwr."+string(ck), k, playPipe(hk, k, -1))
+			}
 		}
 		for j := 0; j < len(h.steps); j++ {
 			if h.steps[j].send == "" {
 				continue
 			}
+			if c01.SkipForStalls() {
+				continue
+			}
 			emit("prd", j, playPipe(h, -1, j))
+			for _, ck := range []byte{'d', 'p', 'n'} {
+				if c01.SkipForStalls() {
+					continue
+				}
+				hk := h
+				hk.ctx = ck
+				emit("prd."+string(ck), j, playPipe(hk, -1, j))
+			}
 		}
 	}
-	r.Exhaustive = append(r.Exhaustive, "each with both spellings of the peer's empty elements (<x/> and <x></x>): real SASL PLAIN + bind (initiator TCP, initiator WebSocket, receiver) and component handshakes: every byte prefix of the peer's stream (thorough; every 7th in quick), every failing Read, every failing Write, a byte-by-byte peer with every failing read (= every byte position), cancellation before every peer step; and over a real net.Pipe: cancellation while blocked in each write (peer stops reading) and in a read before each peer step")
+	r.Exhaustive = append(r.Exhaustive, "each with both spellings of the peer's empty elements (<x/> and <x></x>): real SASL PLAIN + bind (initiator TCP, initiator WebSocket, receiver) and component handshakes: every byte prefix of the peer's stream (thorough; every 7th in quick), every failing Read, every failing Write, a byte-by-byte peer with every failing read (= every byte position), cancellation before every peer step (contexts: WithCancel, far deadline + cancel, cancelled parent, near deadline expiring); and over a real net.Pipe: cancellation while blocked in each write (peer stops reading) and in a read before each peer step")
 }
